@@ -530,6 +530,7 @@ def plan(tier):
     specs += [{'kind': 'calls', 'n': 2500 if tier == 'quick' else 30000, 'k': i, 'names': names[i::kk]} for i in range(kk)]
     specs += [{'kind': 'host', 'n': 1200 if tier == 'quick' else 20000, 'k': 0}]
     specs += [{'kind': 'recursion', 'part': i, 'parts': 3} for i in range(3)]
+    specs += [{'kind': 'badexpr'}]
     specs += [{'kind': 'results', 'n': 2500 if tier == 'quick' else 30000, 'k': i} for i in range(1 if tier == 'quick' else 3)]
     specs += [{'kind': 'programs', 'n': 1000 if tier == 'quick' else 10000, 'k': i} for i in range(4 if tier == 'quick' else 8)]
     return specs
@@ -539,7 +540,33 @@ def adversarial_text(text):
     return any(t in text for t in ('/', '%', '**', '1e+308', 'n0', 'n1', 'n2', 'n3', 'd0', 'd1', 'numberParseInt', 'mathCeil'))
 
 
+BAD_EXPRESSIONS = ['a +', '(', 'a b', '', "'unterminated", 'a ==', ')', '1 2', 'a b c(', '@', 'fn(a,', '[x']
+
+
+def bad_expression_calls():
+    """Every expression-string parameter of the data functions given text that is not an expression (the other expression valid)."""
+    rows = [{'a': 1.0, 'b': 2.0}, {'a': 2.0, 'b': 3.0}]
+    for bad in BAD_EXPRESSIONS:
+        for variables in ((), ({'n': 1.0},)):
+            yield 'dataFilter', [rows, bad] + list(variables)
+            yield 'dataCalculatedField', [rows, 'c', bad] + list(variables)
+            yield 'dataJoin', [rows, rows, bad] + ([None, False] + list(variables) if variables else [])
+            yield 'dataJoin', [rows, rows, 'a', bad] + ([True] + list(variables) if variables else [])
+            yield 'dataJoin', [rows, rows, bad, 'a'] + ([False] + list(variables) if variables else [])
+            yield 'dataJoin', [rows, rows, bad, bad]
+
+
 def run_shard(ctx, spec):
+    if spec['kind'] == 'badexpr':
+        for name, args in bad_expression_calls():
+            for debug in (True, False):
+                try:
+                    check_library_call(name, args, debug)
+                except Violation as v:
+                    ctx.violation(v)
+                ctx.case(digest(['badexpr', name, enc(args), debug]), True, ['bad-expression:' + name, 'debug' if debug else 'no-debug'], {'fn': name, 'args': args})
+        ctx.exhaustive['every expression parameter of dataFilter / dataCalculatedField / dataJoin x %d texts that are not expressions' % len(BAD_EXPRESSIONS)] = True
+        return
     if spec['kind'] == 'expr':
         def prop(seed, size):
             rnd = random.Random(seed)
